@@ -792,7 +792,7 @@ def _fr_sqrt(c: Fr):
     return None
 
 
-def sv_sqrt(a: SV) -> SV:
+def sv_sqrt(a: SV, known_nonneg=False) -> SV:
     if Ctx.current is not None and Ctx.current.opaque_math:
         return _opaque("sqrt", a)
     a = SV.of(a)
@@ -807,16 +807,19 @@ def sv_sqrt(a: SV) -> SV:
         e = _fr_sqrt(a.c)
         if e is not None:
             return SV(c=e)
-    x = _norm(a.term())
-    k = x.get_id()
+    xn = _norm(a.term())  # normal form: cache key only; facts keep the code's own term (generalisation cuts substitute it)
+    k = xn.get_id()
     hit = C.sqrt_cache.get(k)
-    if hit is not None and hit[1].eq(x):
+    if hit is not None and hit[1].eq(xn):
         return SV(t=hit[0])
-    # syntactic square of a term with proved sign?  (kept simple: no)
+    x = a.term()
     y = C.fresh("sq", val=lambda: math.sqrt(C.ev(x)))
-    g = C.need("sqrt", x >= 0)
-    C.fact(z3.Implies(g, z3.And(y >= 0, y * y == x)))
-    C.sqrt_cache[k] = (y, x)
+    if known_nonneg:  # radicand is a sum of squares by construction: no obligation
+        C.fact(y >= 0, y * y == x)
+    else:
+        g = C.need("sqrt", x >= 0)
+        C.fact(z3.Implies(g, z3.And(y >= 0, y * y == x)))
+    C.sqrt_cache[k] = (y, xn)
     return SV(t=y)
 
 
@@ -832,14 +835,15 @@ def sv_cbrt(a: SV) -> SV:
             rn, rd = round(n ** (1 / 3)), round(d ** (1 / 3))
             if rn**3 == n and rd**3 == d:
                 return SV(c=Fr(rn, rd) * (1 if a.c >= 0 else -1))
-    x = _norm(a.term())
-    k = x.get_id()
+    xn = _norm(a.term())
+    k = xn.get_id()
     hit = C.cbrt_cache.get(k)
-    if hit is not None and hit[1].eq(x):
+    if hit is not None and hit[1].eq(xn):
         return SV(t=hit[0])
+    x = a.term()
     y = C.fresh("cb", val=lambda: _np.cbrt(C.ev(x)))
     C.fact(y * y * y == x)
-    C.cbrt_cache[k] = (y, x)
+    C.cbrt_cache[k] = (y, xn)
     return SV(t=y)
 
 
@@ -897,13 +901,14 @@ _UF_FLOAT = {
 def uf_apply(fam, args, guard=None):
     """Ackermann: one fresh Real per distinct application (args are z3 terms)."""
     C = ctx()
+    raw = tuple(args)
     args = tuple(_norm(a) for a in args)
     tab = C.uf.setdefault(fam, [])
     for ar, res, meta in tab:
-        if all(x.eq(y) for x, y in zip(ar, args)):
+        if all(x.eq(y) for x, y in zip(meta.get("norm", ar), args)):
             return res
     r = C.fresh(fam, val=(lambda: _UF_FLOAT[fam](*[C.ev(a) for a in args])) if fam in _UF_FLOAT else float("nan"))
-    tab.append((args, r, {}))
+    tab.append((raw if not all(z3.is_rational_value(a) for a in args) else args, r, {"norm": args}))
     # basic sign/range facts
     if fam in ("exp", "exp10"):
         C.fact(r > 0)
@@ -1172,6 +1177,8 @@ def sincos(a) -> tuple:
         if a.A.pic != 0:
             so, co = _special(a.A.pic)
             S, Cc = S * co + Cc * so, Cc * co - S * so
+        elif len(a.A.lin) == 1 and abs(list(a.A.lin.values())[0][1]) == 1:
+            return S, Cc  # a primitive angle itself: hand out its own terms (generalisation cuts match them syntactically)
         return z3.simplify(S), z3.simplify(Cc)
     # opaque symbolic angle: its own circle point, cached by term
     nt = _norm(a.t)
@@ -1217,10 +1224,11 @@ def sv_arcsin(x):
     C = ctx()
     if x.t is None and x.c == 0:
         return SV(c=Fr(0))
-    xt = _norm(x.term())
-    key = ("asin", xt.get_id())
+    xn = _norm(x.term())
+    key = ("asin", xn.get_id())
     hit = C.consts.get(key)
-    if hit is not None and hit[0].eq(xt):
+    xt = x.term()
+    if hit is not None and hit[0].eq(xn):
         p = hit[1]
     else:
         g = C.need("arcsin", z3.And(xt >= -1, xt <= 1))
@@ -1231,7 +1239,7 @@ def sv_arcsin(x):
                z3.Implies(z3.And(g, xt > 0), th > 0), z3.Implies(z3.And(g, xt < 0), th < 0),
                z3.Implies(z3.And(g, xt < 1), th < PI / 2), z3.Implies(z3.And(g, xt > -1), th > -PI / 2))
         p = new_prim(th, xt, cs, "arcsin")
-        C.consts[key] = (xt, p)
+        C.consts[key] = (xn, p)
     return SV(t=p.t, A=Ang({id(p): (p, Fr(1))}))
 
 
@@ -1243,10 +1251,11 @@ def sv_arccos(x):
     C = ctx()
     if x.t is None and x.c == 1:
         return SV(c=Fr(0))
-    xt = _norm(x.term())
-    key = ("acos", xt.get_id())
+    xn = _norm(x.term())
+    key = ("acos", xn.get_id())
     hit = C.consts.get(key)
-    if hit is not None and hit[0].eq(xt):
+    xt = x.term()
+    if hit is not None and hit[0].eq(xn):
         p = hit[1]
     else:
         g = C.need("arccos", z3.And(xt >= -1, xt <= 1))
@@ -1258,7 +1267,7 @@ def sv_arccos(x):
                z3.Implies(z3.And(g, xt < 1), th > 0), z3.Implies(z3.And(g, xt > -1), th < PI),
                z3.Implies(z3.And(g, xt == 1), th == 0), z3.Implies(z3.And(g, xt == -1), th == PI))
         p = new_prim(th, sn, xt, "arccos")
-        C.consts[key] = (xt, p)
+        C.consts[key] = (xn, p)
     return SV(t=p.t, A=Ang({id(p): (p, Fr(1))}))
 
 
@@ -1268,13 +1277,14 @@ def sv_arctan2(y, x):
     y, x = SV.of(y), SV.of(x)
     y, x = _n(y), _n(x)
     C = ctx()
-    yt, xt = _norm(y.term()), _norm(x.term())
-    key = ("atan2", yt.get_id(), xt.get_id())
+    yn, xn = _norm(y.term()), _norm(x.term())
+    key = ("atan2", yn.get_id(), xn.get_id())
     hit = C.consts.get(key)
-    if hit is not None and hit[0].eq(yt) and hit[1].eq(xt):
+    yt, xt = y.term(), x.term()
+    if hit is not None and hit[0].eq(yn) and hit[1].eq(xn):
         p = hit[2]
     else:
-        h = sv_sqrt(SV(t=xt * xt + yt * yt)).term()
+        h = _sqrt_nonneg(SV(t=xt * xt + yt * yt)).term()
         g = C.need("atan2-origin", h != 0)
         th = C.fresh("atan2", val=lambda: math.atan2(C.ev(yt), C.ev(xt)))
         s = C.fresh("at2s", val=lambda: math.sin(math.atan2(C.ev(yt), C.ev(xt))))
@@ -1287,8 +1297,14 @@ def sv_arctan2(y, x):
                z3.Implies(z3.And(xt < 0, yt >= 0), th > PI / 2), z3.Implies(z3.And(xt < 0, yt < 0), th < -PI / 2),
                z3.Implies(z3.And(xt == 0, yt > 0), th == PI / 2), z3.Implies(z3.And(xt == 0, yt < 0), th == -PI / 2))
         p = new_prim(th, s, c, "arctan2")
-        C.consts[key] = (yt, xt, p)
+        C.consts[key] = (yn, xn, p)
     return SV(t=p.t, A=Ang({id(p): (p, Fr(1))}))
+
+
+def _sqrt_nonneg(a):
+    f = globals()["sv_sqrt"]
+    f = getattr(f, "__wrapped__", f)
+    return f(a, True)
 
 
 def sv_arctan(x):
